@@ -18,30 +18,56 @@ PARSE_FNS = ("deku::DekuRead::read", "serde_json::de::from_reader", "serde_json:
 
 # (function path, operator, why it cannot overflow/panic) — frozen after reading each site; keyed by function + operator + operand shape
 ALLOW = [
-    ("tile_manager::TileManager::<R>::push_entry", "+", "tile_id",
+    ("role:rle", "+", "tile_id",
      "last.tile_id + last.run_length: ids are distinct and ascending after the sort, so the sum is at most the current id"),
-    ("tile_manager::TileManager::<R>::push_entry", "+=", "run_length",
+    ("role:rle", "+=", "run_length",
      "run_length += 1: needs more than 2^32 resident tiles with one content, outside the claim's budget"),
-    ("directory::Directory::to_writer_impl", "-", "tile_id",
+    ("role:dir_encoder", "-", "tile_id",
      "entry.tile_id − last_id: on the re-write path entries come from the layout pass (ascending ids); arbitrary Directory values are outside C08"),
-    ("directory::Directory::to_async_writer_impl", "-", "tile_id", "same as the sync twin"),
-    ("directory::Directory::to_writer_impl", "+", "offset",
+    ("role:dir_encoder", "+", "offset",
      "entry.offset + 1 / + length: offsets produced by the layout pass are below data.len() ≤ 2^63"),
-    ("directory::Directory::to_async_writer_impl", "+", "offset", "same as the sync twin"),
-    ("util::tile_id::tile_id", "*", "", "public helper with a documented domain (valid z/x/y); in-crate lookups establish z ≤ 31, x,y < 2^z first (R-ZXY-GUARD)"),
-    ("util::tile_id::tile_id", "+", "", "1 + Σ4^i + h < 2^63 for z ≤ 31 (callers guarded by R-ZXY-GUARD)"),
-    ("util::tile_id::tile_id", "pow", "", "4^i for i < z ≤ 31 fits (callers guarded by R-ZXY-GUARD)"),
-    ("util::tile_id::zxy", "-", "", "tile_id − base_id: find_z returned the zoom whose block contains the id, so base_id ≤ tile_id"),
-    ("util::tile_id::zxy", "+", "", "1 + Σ_{i<z} 4^i with z ≤ 31"),
-    ("util::tile_id::zxy", "pow", "", "4^i for i < z ≤ 31"),
-    ("util::tile_id::find_z", "+=", "", "acc += 4^i for i < MAX_Z = 32: Σ < 2^64 (constant-bounded loop)"),
-    ("util::tile_id::find_z", "pow", "", "4^i for i < 32 fits in u64"),
-    ("util::tile_id::is_valid_zxy", "<<", "", "1 << z is evaluated only after z < MAX_Z (short-circuit &&)"),
+    ("role:tile_id", "*", "", "public helper with a documented domain (valid z/x/y); in-crate lookups establish z ≤ 31, x,y < 2^z first (R-ZXY-GUARD)"),
+    ("role:tile_id", "+", "", "1 + Σ4^i + h < 2^63 for z ≤ 31 (callers guarded by R-ZXY-GUARD)"),
+    ("role:tile_id", "pow", "", "4^i for i < z ≤ 31 fits (callers guarded by R-ZXY-GUARD)"),
+    ("role:zxy", "-", "", "tile_id − base_id: find_z returned the zoom whose block contains the id, so base_id ≤ tile_id"),
+    ("role:zxy", "+", "", "1 + Σ_{i<z} 4^i with z ≤ 31"),
+    ("role:zxy", "pow", "", "4^i for i < z ≤ 31"),
+    ("role:find_z", "+=", "", "acc += 4^i for i < MAX_Z = 32: Σ < 2^64 (constant-bounded loop)"),
+    ("role:find_z", "pow", "", "4^i for i < 32 fits in u64"),
+    ("role:valid_zxy", "<<", "", "1 << z is evaluated only after z < MAX_Z (short-circuit &&)"),
 ]
 ALLOW_INDEX = [
-    ("directory::Directory::from_reader_impl", "entries[i] for i in 0..num_entries: the vector received exactly num_entries pushes in the first pass, every other exit is an error return"),
-    ("directory::Directory::from_async_reader_impl", "same as the sync twin"),
+    ("role:dir_decoder", "entries[i] for i in 0..num_entries: the vector received exactly num_entries pushes in the first pass, every other exit is an error return"),
 ]
+_ROLE_FNS = {}
+
+
+def _install_roles(ctx):
+    """the allow-table is keyed by what a function *is* (located like the rules locate it), not by what it is called"""
+    import rules_dir as _rd
+    r = {}
+    r["role:rle"] = set(f["path"] for f in ctx.user_fns() if any(c["fn"].endswith("::last_mut") for c in calls(f["body"])) and ctx.has_struct(f, "directory::Entry"))
+    r["role:dir_encoder"] = set(f["path"] for f in _rd.dir_encoders(ctx))
+    r["role:dir_decoder"] = set(f["path"] for f in _rd.dir_decoders(ctx))
+    r["role:tile_id"] = set(f["path"] for f in ctx.user_fns() if any("xy2h_discrete" in c["fn"] for c in calls(f["body"])))
+    r["role:zxy"] = set(f["path"] for f in ctx.user_fns() if any("h2xy_discrete" in c["fn"] for c in calls(f["body"])))
+    r["role:find_z"] = set(f["path"] for f in ctx.user_fns() if "MaxZError" in f["ret"] and "Result<u8" in f["ret"])
+    r["role:valid_zxy"] = set(f["path"] for f in ctx.user_fns() if f["ret"] == "bool" and len(f["params"]) == 3 and all((p_.get("ty") or "") in ("u8", "u64") for p_ in f["params"]))
+    # private helpers of a role function that the interpreter evaluates in place are judged as part of it (owner = the caller); helpers that are
+    # analysed on their own inherit the role of their only callers
+    cg = ctx.callgraph()
+    for role, fns in list(r.items()):
+        for f in ctx.user_fns():
+            if f["vis"] != "pub" and f["path"] not in fns:
+                callers = [c for c, cs in cg.items() if f["path"] in cs]
+                if callers and all(c in fns for c in callers):
+                    fns.add(f["path"])
+    _ROLE_FNS.clear()
+    _ROLE_FNS.update(r)
+
+
+def _in_role(role, fnpath):
+    return fnpath in _ROLE_FNS.get(role, ()) if role.startswith("role:") else role == fnpath
 
 
 def bits_of(fa, t, ty=None):
@@ -333,7 +359,7 @@ def allowed(fnpath, opname, l, r):
         except Exception:
             pass
     for (fn, op, needle, why) in ALLOW:
-        if fn == fnpath and op == opname:
+        if _in_role(fn, fnpath) and op == opname:
             if not needle or needle in tstr(l) or (r is not None and needle in tstr(r)):
                 return why
     return None
@@ -341,6 +367,7 @@ def allowed(fnpath, opname, l, r):
 
 def r_taint_arith(ctx, extra=None, rule="R-TAINT-ARITH", only_fns=None):
     obs = []
+    _install_roles(ctx)
     tn = _taint(ctx, extra)
     per_node = {}
     called = set(c for cs in ctx.callgraph().values() for c in cs)
@@ -485,6 +512,7 @@ def r_taint_alloc(ctx, extra=None):
 
 def r_taint_index(ctx, extra=None):
     obs = []
+    _install_roles(ctx)
     tn = _taint(ctx, extra)
     seen = {}
     for f in ctx.user_fns():
@@ -515,7 +543,7 @@ def r_taint_index(ctx, extra=None):
                     if base[0] == "elem" and is_call_to(base[1], lambda s: s.endswith("::chunks")):
                         verdict, why = True, "chunk of chunks(): never empty"
                 for (fn, reason) in ALLOW_INDEX:
-                    if fn == f["path"] and _is_counted_index(p, e, idx):
+                    if _in_role(fn, f["path"]) and _is_counted_index(p, e, idx):
                         verdict, why = True, "allow-table: " + reason
                 key = (f["path"], e.node.get("id"))
                 if key not in seen or (seen[key][0] and not verdict):
